@@ -93,7 +93,8 @@ func RunC09(t *testing.T, tape *Tape) *Outcome {
 	k := tape.Choose(c09KMax + 1)
 	entry := tape.Choose(4)
 	mode := tape.Choose(4) // 0,1: cancel at operation k; 2: cancel at hook event; 3: deadline flavour with sleeping actors
-	prog := GenC09(tape, mode == 3)
+	withImport := entry == 2 && tape.Choose(2) == 1
+	prog := GenC09Imp(tape, mode == 3, withImport)
 	cfg := SchedCfg(tape, true)
 	cfg.MaxOps = 1500
 	cfg.MaxDecisions = 6000
@@ -103,6 +104,10 @@ func RunC09(t *testing.T, tape *Tape) *Outcome {
 	o.Detail["mode"] = mode
 	o.Detail["program"] = prog.Src
 	o.Detail["bodies"] = prog.Desc
+	if withImport {
+		o.Desc += " +source-import"
+		o.Detail["source_import"] = true
+	}
 
 	var sink *host.Sink
 	var ret c09Ret
@@ -125,6 +130,9 @@ func RunC09(t *testing.T, tape *Tape) *Outcome {
 		var fsys fstest.MapFS
 		if entry == 2 {
 			fsys = fstest.MapFS{"main.go": &fstest.MapFile{Data: []byte(prog.Src)}}
+			if withImport {
+				fsys["_pkg/src/dep/dep.go"] = &fstest.MapFile{Data: []byte(C09DepSrc)}
+			}
 		}
 		inter = NewInterpFS(fsys)
 		var cancel func()
